@@ -169,6 +169,33 @@ def encode(t, lie=None):
     if k == "f": return bytes([0xe0 | {2: 25, 4: 26, 8: 27}[len(t[1])]]) + t[1]
     raise ValueError(k)
 
+def repeat_key(t, rng):
+    """the tree with ONE map entry (key and value) repeated at a random place of its map, nothing else changed: invalid CBOR that a reader
+    must survive; what it makes of it (append / last wins) is compared with the model"""
+    maps = []
+    def walk(x):
+        if x[0] == "m":
+            if x[1]: maps.append(x)
+            for a, b in x[1]: walk(b)
+        elif x[0] == "a":
+            for y in x[1]: walk(y)
+        elif x[0] == "tag": walk(x[2])
+    walk(t)
+    if not maps: return t
+    # prefer entries whose value is a container (the members a reader may append to)
+    cands = [(m, e) for m in maps for e in m[1] if e[1][0] in ("a", "m") and e[1][1]] or [(m, e) for m in maps for e in m[1]]
+    tm, te = rng.choice(cands)
+    def rebuild(x):
+        if x is tm:
+            ents = [(a, rebuild(b)) for a, b in x[1]]
+            ents.insert(rng.randrange(len(ents) + 1), te)
+            return ("m", ents, x[2], x[3])
+        if x[0] == "m": return ("m", [(a, rebuild(b)) for a, b in x[1]], x[2], x[3])
+        if x[0] == "a": return ("a", [rebuild(y) for y in x[1]], x[2], x[3])
+        if x[0] == "tag": return ("tag", x[1], rebuild(x[2]), x[3])
+        return x
+    return rebuild(t)
+
 def mutate_tree(t, rng, p=0.06):
     """structure-aware mutation: integers replaced by boundary values (out-of-range indices, huge counts), members dropped or
     duplicated, containers switched to indefinite, wrong major types"""
